@@ -13,7 +13,7 @@ KeysAB == {"a", "b"}
 Leaf(n) == <<"L", n>>
 Dict(f) == <<"D", f>>
 IsDict(t) == t[1] = "D"
-Leaves == {Leaf(1), Leaf(2)}
+Leaves == {Leaf(0), Leaf(2)}        \* 0 is a falsy value in the implementation language: a merge must not confuse it with 'absent'
 DictsOver(T) == {Dict(f) : f \in UNION {[K -> T] : K \in SUBSET KeysAB}}
 D1 == DictsOver(Leaves)
 T1 == Leaves \cup D1
